@@ -225,6 +225,26 @@ def flat_spec(n, edges, rank_perm=None, forever=(), critical=(), pure=True):
                 forever=[f + 1 for f in forever], critical=[c + 1 for c in critical], rank=rank, top_pure=pure)
 
 
+def nestify(spec, rng, p=0.3):
+    """turn some members of the top scheduler of a flat spec into nested schedulers: empty ones, or holding one or
+    two fresh atomic jobs (closed inside); the top-level graph keeps its nodes and edges"""
+    spec = dict(spec, sched=list(spec.get("sched", [0])), mem=dict(spec["mem"]), req=dict(spec["req"]),
+                rank=dict(spec.get("rank", {})))
+    for j in list(spec["mem"][0]):
+        if rng.random() < p:
+            spec["sched"].append(j)
+            kids = []
+            for _ in range(rng.choice([0, 0, 1, 2])):
+                k = spec["n"]
+                spec["n"] += 1
+                spec["rank"][k] = len(kids)
+                kids.append(k)
+            if len(kids) == 2 and rng.random() < 0.5:
+                spec["req"][kids[1]] = [kids[0]]
+            spec["mem"][j] = kids
+    return spec
+
+
 def random_tree(rng, max_depth=3, max_kids=4, p_sched=0.3, p_edge=0.4, allow_empty=True, cyclic=0.0,
                 dangling=0.0, labels=None):
     """random scheduler tree; ids are given top-down (a scheduler's id is smaller than its members')"""
